@@ -1,0 +1,12 @@
+//go:build !verif
+
+package tglib
+
+import "github.com/ishidawataru/sctp"
+
+func verifAdoptConn(amfIP, stgIP string, amfPort, stgPort int) (*sctp.SCTPConn, bool) {
+	return nil, false
+}
+
+// VerifEmit is a no-op without the verif build tag.
+func VerifEmit(ev map[string]interface{}) {}
